@@ -40,6 +40,7 @@ func (s *Stream) safeSendToDataChan(data map[string]any) bool {
 	if s.dataChan == nil {
 		return false
 	}
+	verifYield("send_locked")
 	select {
 	case s.dataChan <- data:
 		return true
@@ -118,7 +119,9 @@ func (s *Stream) expandDataChannel() {
 	newChan := make(chan map[string]any, newCap)
 
 	// Safely migrate data using write lock
+	verifYield("expand_before_lock")
 	s.dataChanMux.Lock()
+	verifYield("expand_locked")
 	oldChan := s.dataChan
 
 	// Quickly migrate data from old channel to new channel
@@ -132,6 +135,7 @@ func (s *Stream) expandDataChannel() {
 			select {
 			case newChan <- data:
 				migratedCount++
+				verifYield("expand_migrated_one")
 			case <-migrationTimeout.C:
 				s.log.Warn("Data migration timeout, some data may be lost during expansion")
 				goto migration_done
